@@ -128,6 +128,28 @@ def semantic_summary(facts, b):
         elif t['k'] == 'drop':
             out.append(('drop', b.local_ty(t['place']['l'])))
     out.append(('ret', strip_sites(a.ret_val())))
+    # sizes and constants are behaviour: array-typed locals and every integer constant of the body
+    arrays = sorted(l['ty'] for l in b.raw['locals'] if re.match(r'^\[.*; \d+\]$', l['ty']))
+    consts = []
+
+    def scan(x):
+        if isinstance(x, dict):
+            if x.get('k') == 'const' and 'int' in x:
+                consts.append((x.get('ty'), x['int']))
+            if x.get('k') == 'repeat':
+                consts.append(('repeat', str(x.get('n'))))
+            for v in x.values():
+                scan(v)
+        elif isinstance(x, list):
+            for v in x:
+                scan(v)
+    for bi in a.cfg.rpo:
+        scan(b.blocks[bi]['stmts'])
+        t = b.blocks[bi]['term']
+        if t['k'] in ('switch', 'assert'):
+            scan(t)
+    out.append(('arrays', arrays))
+    out.append(('consts', sorted(consts, key=str)))
     return hashlib.sha256(_spell(repr(out)).encode()).hexdigest()
 
 
